@@ -57,7 +57,46 @@ def r1_mate_needs_check(ctx):
                     ctx.ob(rid, "uci_to_pgn|plus-suffix-depends-on-check", ok, "" if ok else "the '+' suffix does not depend on an in-check test", ctx.where(f, s["line"]))
 
 
+def r1b_check_test_unconditional(ctx):
+    """'+' / '#' are decided by the in-check test on every written move"""
+    rid = "C14.R1"
+    f = ctx.fn(rid, BB + "uci_to_pgn")
+    cfg = Cfg(f)
+    makes = [b for b in cfg.reach if f["blocks"][b]["term"]["k"] == "call" and f["blocks"][b]["term"]["callee"].get("key") == B.MAKE]
+    checks = {b for b in cfg.reach if f["blocks"][b]["term"]["k"] == "call" and f["blocks"][b]["term"]["callee"].get("key") in CHECKS and any(cfg.dominates(m, b) for m in makes)}
+    oks = []
+    for b in sorted(cfg.reach):
+        if f["blocks"][b]["cleanup"]:
+            continue
+        for s in f["blocks"][b]["stmts"]:
+            d = s["dst"]
+            if d is not None and d["l"] == 0 and not d["p"] and s["rv"]["op"] == "agg" and s["rv"].get("variant") == "Ok":
+                oks.append((b, s["line"]))
+    if not checks or not oks:
+        ctx.lost(rid, "uci_to_pgn: in-check test after the move / Ok exits")
+        return
+    bad = []
+    for b, line in oks:
+        seen, work = set(), [0]
+        hit = False
+        while work:
+            x = work.pop()
+            if x in seen or x in checks:
+                continue
+            seen.add(x)
+            if x == b:
+                hit = True
+                break
+            work.extend(y for y in cfg.succ[x] if not f["blocks"][y]["cleanup"])
+        if hit:
+            bad.append(line)
+    ctx.ob(rid, "uci_to_pgn|check-test-on-every-written-move", not bad,
+           "" if not bad else "uci_to_pgn can write a move without having tested whether the opponent is in check after it (the test is skipped for some kinds of move): a discovered check by such a move is written without '+' / '#'",
+           ctx.where(f, bad[0] if bad else None), sample={"ok_exits": len(oks)})
+
+
 def run(ctx):
     r1_mate_needs_check(ctx)
+    r1b_check_test_unconditional(ctx)
     from . import c14_struct
     c14_struct.run(ctx)
